@@ -317,7 +317,7 @@ Proof.
   { unfold fuel_of. rewrite H3, app_length. lia. }
   cbn [parse_next]. rewrite H1, H2. cbn [Z.eqb Pos.eqb].
   unfold parse_settings. destruct (Z.gtb_spec (zlen pl) maxSettingsLen); [lia|].
-  rewrite H5. cbn [app]. rewrite Hp. cbn [map_err]. eauto.
+  rewrite H5. cbn [app]. rewrite Hp. eauto.
 Qed.
 
 Lemma parse_next_goaway_frame (f : nat) (s : src) (cl : option Z) (th lh ie rest : list Z) (l id : Z) :
@@ -330,8 +330,7 @@ Proof.
   destruct (read_varint_venc s2 ie id rest (benign_same_end _ _ H4 Hb) Hi H3) as (s3 & H5 & H6 & _).
   cbn [parse_next]. rewrite H1, H2. cbn [Z.eqb Pos.eqb].
   unfold parse_goaway. rewrite H5. exists s3. split; [|exact H6].
-  destruct (zlen ie =? l); cbn [map_err truncated is_eof andb]; [reflexivity|].
-  destruct (s_data s); reflexivity.
+  destruct (zlen ie =? l); reflexivity.
 Qed.
 
 Lemma settings_goaway_through_parser :
